@@ -238,6 +238,7 @@ def run(ctx):
     assumptions = ["firmware T3 recurrence as in the property statement; domain |rate_k|, "
                    "|accel_k| <= 2^31-1", "exhaustive over the stated lattice only"]
     coverage["rule"] += ('; rows whose turning point lies k/|jerk| inside the window edge for |jerk| = 1e8..6e8, T = 4..12, start rate centring the move in the 32-bit range')
+    coverage["rule"] += ("; move lengths written in ebb_calc's source (and 4096, 100000): c-1..c+2, c+1000, 2c+1 with jerk 1..7 and the turning point inside the move")
     return {"part": part, "coverage": coverage, "assumptions": assumptions}
 
 
